@@ -22,3 +22,6 @@ def run(project, rep):
     rep.run(A.a_r2_r3_properties, schema, rep)
     rep.run(A.a_r4_ofx, schema, rep)
     rep.run(A.a_r5_recomputed_and_picklable, schema, rep)
+    from .. import rules_schema as S
+    rep.rule("A-R7", "flat attribute access consults the class's OWN table of sub-aggregates (S-R10: no class-level memo read through inheritance)")
+    rep.run(S.s_r10_per_class_tables, schema, rep)
